@@ -24,7 +24,7 @@ from props import c02
 
 READY = True
 DRIVERS = ['drv_c04']
-PROPERTY_MODULES = ['C04', 'C04Result']
+PROPERTY_MODULES = ['C04', 'C04Result', 'C04Periodic']
 MANIFEST = dict(
     technique='Lean 4 theorems on a transcribed report-construction model (exactness of report content, grouping by MDS) and on '
               'an interleaving semantics of writer threads (any number of threads, any schedule; writer program generated from a '
@@ -409,6 +409,156 @@ def trace_writer(sync=True):
         p.stop()
 
 
+def setup_periodic(p, handles_per_kind=2):
+    """periodic retrievability for a few metrics, an alert, a component and the context descriptors; returns the handler"""
+    from sdc11073.provider.periodicreports import PeriodicReportsHandler
+    m = p.mdib
+    w = tx.World(p, __import__('random').Random(3))
+    hs = (w.states_of_kind('metric')[:handles_per_kind] + w.states_of_kind('alert')[:1] + w.states_of_kind('component')[:1]
+          + w.descr_handles(lambda d: d.is_context_descriptor)[:2])
+    w.close()
+    m.retrievability_periodic.clear()
+    m.retrievability_periodic[1000] = list(hs)
+    return PeriodicReportsHandler(m, p.device.hosted_services, None), hs
+
+
+class _StopLoop(Exception):
+    pass
+
+
+def run_collector_once(handler, before_body=None):
+    """exactly one iteration of the real `_periodic_reports_send_loop`"""
+    import sdc11073.provider.periodicreports as pr
+    calls = [0]
+
+    class OneShotTimer:
+        def __init__(self, period_in_seconds):
+            pass
+
+        def remaining_time(self):
+            return 0
+
+        def wait_next_interval_begin(self):
+            calls[0] += 1
+            if calls[0] > 1:
+                raise _StopLoop
+            if before_body:
+                before_body()
+    orig_timer, orig_sleep = pr.intervaltimer.IntervalTimer, pr.time.sleep
+    pr.intervaltimer.IntervalTimer = OneShotTimer
+    pr.time = __import__('types').SimpleNamespace(sleep=lambda s: None, time=orig_sleep.__self__.time if hasattr(orig_sleep, '__self__') else __import__('time').time)
+    handler._run_periodic_reports_thread = True  # noqa: SLF001
+    import contextlib
+    import io
+    try:
+        with contextlib.redirect_stdout(io.StringIO()):      # the loop prints debugging output
+            handler._periodic_reports_send_loop()  # noqa: SLF001
+    except _StopLoop:
+        pass
+    finally:
+        pr.intervaltimer.IntervalTimer = orig_timer
+        pr.time = __import__('time')
+
+
+def trace_periodic_collector():
+    """lock / access trace of one iteration of the periodic report collector (label = mdib_version, state copies)"""
+    import locktrace
+    p = lb.Provider(start=False, role_providers=False)
+    handler, _hs = setup_periodic(p)
+    tracer = locktrace.install_tracing(p.mdib)
+    tracer.enabled = False
+
+    def begin():
+        tracer.enabled = True
+    try:
+        run_collector_once(handler, before_body=begin)
+    finally:
+        tracer.enabled = False
+    # what labels the copies is `mdib_version`; the report-level version group is read at send time by design, and the
+    # descriptor look-ups only classify handles (descriptor kinds never change): neither belongs to the snapshot
+    evs = [e for e in tracer.events if e[2] not in ('descriptions', 'descriptor', 'descriptor-object') and e[1] != 'deref']
+    events = []
+    i = 0
+    while i < len(evs):
+        # `mdib_version_group` = consecutive reads of mdib_version, sequence_id, instance_id (report-level stamp at send time)
+        if [x[2] for x in evs[i:i + 3]] == ['mdib_version', 'sequence_id', 'instance_id'] and all(x[1] == 'rdV' for x in evs[i:i + 3]):
+            i += 3
+            continue
+        events.append(evs[i])
+        i += 1
+    return locktrace.to_actions(events)
+
+
+def periodic_forced(ctx):
+    """Forced schedule on the real periodic collector: one transaction commits just before the collector takes mdib_lock,
+    another right after it released it. Every PeriodicStates(label, copies) handed to the report services must show, for
+    every copy, the value that state had at the labelled MdibVersion."""
+    import locktrace
+    p = lb.Provider(start=False, role_providers=False)
+    m = p.mdib
+    handler, hs = setup_periodic(p)
+    w = tx.World(p, ctx.subrng('periodic'))
+    metrics = [h for h in hs if h in w.states_of_kind('metric')]
+    history = {}
+
+    def record():
+        history[m.mdib_version] = {s.DescriptorHandle: (s.StateVersion, lb.canon_value(s)) for s in m.states.objects}
+    record()
+    tracer = locktrace.install_tracing(m)
+    captured = []
+    for srv, names in ((p.device.hosted_services.state_event_service, ('send_periodic_metric_report', 'send_periodic_alert_report',
+                                                                         'send_periodic_component_state_report',
+                                                                         'send_periodic_operational_state_report')),
+                       (p.device.hosted_services.context_service, ('send_periodic_context_report',))):
+        for n in names:
+            if hasattr(srv, n):
+                setattr(srv, n, (lambda lst, vg, _n=n: captured.append((_n, [(x.mdib_version, list(x.states)) for x in lst]))))
+    done = {'before': False, 'after': False}
+
+    def commit(h, val):
+        with tracer.suspended():
+            with m.metric_state_transaction() as mgr:
+                st = mgr.get_state(h)
+                if st.MetricValue is None:
+                    st.mk_metric_value()
+                st.MetricValue.Value = Decimal(val) if st.NODETYPE.localname == 'NumericMetricState' else f'v{val}'
+            record()
+
+    def on_event(kind, what, holds):
+        if kind == 'before-acq' and not done['before']:
+            done['before'] = True
+            commit(metrics[0], 11)
+        elif kind == 'rel' and not done['after']:
+            done['after'] = True
+            commit(metrics[-1], 22)
+    tracer.on_event = on_event
+
+    def begin():
+        tracer.enabled = True
+    try:
+        run_collector_once(handler, before_body=begin)
+    finally:
+        tracer.enabled = False
+        w.close()
+    case = {'periodic_forced': True, 'handles': hs}
+    for name, lst in captured:
+        for label, states in lst:
+            snap = history.get(label)
+            bad = []
+            for st in states:
+                if st.is_context_state:
+                    continue
+                exp = snap.get(st.DescriptorHandle) if snap else None
+                if exp is None or exp != (st.StateVersion, lb.canon_value(st)):
+                    bad.append(f'{st.DescriptorHandle}: copy has StateVersion {st.StateVersion}, version {label} had {exp[0] if exp else None}')
+            if bad:
+                ctx.fail('periodic-copy-not-of-labelled-version', f'{name}: copies labelled MdibVersion {label}: ' + '; '.join(bad[:3]), case)
+    if not captured:
+        ctx.fail('periodic-collector-sent-nothing', 'no periodic report was handed to the report services', case)
+    ctx.case({**case, 'reports': [n for n, _ in captured]}, nontrivial=True)
+    ctx.count('periodic-forced-runs')
+
+
 def prog_to_lean(name, log):
     acts = []
     for ev, arg in log:
@@ -430,6 +580,11 @@ def translate(ctx):
     src += prog_to_lean('writerAsync', trace_writer(sync=False))
     src += 'end Sdc.Generated\n'
     core.write_if_changed(core.GENERATED + '/WriterProg.lean', src)
+    acts = trace_periodic_collector()
+    src2 = ('import SdcModel.LockLts\n/-! generated by harness/props/c04.py: lock / access trace of one iteration of the periodic report collector -/\n'
+            'namespace Sdc.Generated\nopen Sdc.LockLts\n'
+            f"def prog_periodicCollector : List Act := [{', '.join('.' + a for a in acts)}]\nend Sdc.Generated\n")
+    core.write_if_changed(core.GENERATED + '/PeriodicProg.lean', src2)
 
 
 def concurrent_writers(ctx, sync, n_threads, n_tx):
@@ -508,6 +663,7 @@ def run(ctx):
     if ctx.tier == 'thorough' or ctx.proof_problems:
         for sync in (True, False):
             slow_subscriber_order(ctx, sync)
+    periodic_forced(ctx)
 
 
 def search(ctx):
@@ -521,7 +677,9 @@ def replay(ctx, obj):
     lb.quiet()
     case = obj['case']
     ctx2 = core.Ctx('C04', 'quick', 0)
-    if 'slow_subscriber' in case:
+    if 'periodic_forced' in case:
+        periodic_forced(ctx2)
+    elif 'slow_subscriber' in case:
         slow_subscriber_order(ctx2, case['sync'])
     elif 'concurrent_writers' in case:
         concurrent_writers(ctx2, case['sync'], case['concurrent_writers'], case['transactions_each'])
